@@ -53,6 +53,17 @@ CHECKS['C20'] = dict(
    note='Trusted: Coq kernel + vm_compute; Model/Import.v and Model/CandleStore.v (hand-written; pydash.find = first match; live-mode branches not modelled); '
         'harness/c20.py. Axiom-free. Relies on C18 for the backing array.',
    tech='Rocq proof (spec equality + invariant over all histories) + model/implementation correspondence', ref='DESIGN.md section 6 (C20)')
+CHECKS['C04'] = dict(
+   text='Machine-checked refinement (exact rationals): for every starting balance, fee in [0,1) and every well-formed history of submit/cancel/execute '
+        '(any length; fresh ids, positive qty/price, sells executed while covered) the hand-written model of SpotExchange + Order + Position takes the '
+        'reference cash account\'s accept/reject decisions, shows its quote/base balances, never negative, position = base, and its cached resting-sell '
+        'totals equal the totals over the active sell orders after any number of cancellations (the invariant the double-subtraction defect F3 broke). '
+        'Outside well-formedness the statement is refuted by a kernel-evaluated witness (known finding F17, replayed on the real objects). The model is '
+        'tied to the real objects after every operation (exact comparison inside Coq) and the reference account is evaluated on the implementation\'s own '
+        'observations.',
+   note='Trusted: Coq kernel + vm_compute; Model/Spot.v (hand-written); harness/c04.py + driver.py (inert strategy attached). Exact arithmetic: inputs are '
+        'short decimals / dyadic values for which Decimal(str(x)) arithmetic is exact (checked per observation); binary64 rounding of long expansions is not covered.',
+   tech='Rocq proof: refinement to a reference account by invariant over all histories + exact model/implementation correspondence', ref='DESIGN.md section 6 (C04)')
 NA = {}
 def main():
     props = [json.loads(l)['id'] for l in open(f'{V}/properties.jsonl')]
